@@ -380,8 +380,19 @@ class Plane:
         else:
             support = None
 
+        # what amplitude and opd hold outside the mask carries no information (zeros
+        # left by an earlier rescale, a tilt that fit_tilt removed inside the mask
+        # only): the data inside the mask are continued outwards (nearest sample)
+        # before interpolating, so that the spline near the rim sees the aperture only
+        def continued(a):
+            if support is None or support.all() or not support.any():
+                return a
+            nearest = ndimage.distance_transform_edt(support == 0, return_distances=False,
+                                                           return_indices=True)
+            return a[tuple(nearest)]
+
         if plane.amplitude.ndim > 1:
-            plane.amplitude = lentil.rescale(plane.amplitude, scale=scale, shape=None,
+            plane.amplitude = lentil.rescale(continued(plane.amplitude), scale=scale, shape=None,
                                                 mask=support, order=3, mode='nearest',
                                                 unitary=False)/scale
         elif plane._mask.ndim > 1:
@@ -390,7 +401,7 @@ class Plane:
             plane.amplitude = plane.amplitude/scale
 
         if plane.opd.ndim > 1:
-            plane.opd = lentil.rescale(plane.opd, scale=scale, shape=None, mask=support,
+            plane.opd = lentil.rescale(continued(plane.opd), scale=scale, shape=None, mask=support,
                                        order=3, mode='nearest', unitary=False)
 
         # (mode 'nearest' as for amplitude and opd: a new sample that lies within
@@ -407,6 +418,14 @@ class Plane:
         plane._mask = plane._mask.astype(int)
 
         plane._slice = _plane_slice(plane._mask)
+
+        # amplitude and opd are confined to the new mask (the continuation
+        # above reaches beyond it)
+        new_support = plane._mask if plane._mask.ndim == 2 else np.sum(plane._mask, axis=0) != 0
+        if plane.amplitude.ndim > 1:
+            plane.amplitude = plane.amplitude * new_support
+        if plane.opd.ndim > 1:
+            plane.opd = plane.opd * new_support
 
         if plane.pixelscale is not None:
             plane._pixelscale = (plane.pixelscale[0]/scale, plane.pixelscale[1]/scale)
